@@ -4,6 +4,33 @@ use num_traits::CheckedMul;
 
 pub fn handle(op: &str, a: &[&str]) -> Option<String> {
     Some(match (op, a) {
+        ("u.mul_u64", [x, s]) => {
+            let sc = s.parse::<u64>().ok()?;
+            let a = parse_u(x)?;
+            let mut b = a.clone();
+            b *= sc;
+            let c = &a * sc;
+            let d = sc * a.clone();
+            if show_u(&b) != show_u(&c) || show_u(&c) != show_u(&d) || (sc <= u32::MAX as u64 && show_u(&(&a * (sc as u32))) != show_u(&c)) {
+                return Some("panic internal:scalar-forms-disagree".to_string());
+            }
+            ok_u(&b)
+        }
+        ("u.mul_u128", [x, s]) => {
+            let sc = s.parse::<u128>().ok()?;
+            let a = parse_u(x)?;
+            let mut b = a.clone();
+            b *= sc;
+            let c = &a * sc;
+            let d = sc * &a;
+            if show_u(&b) != show_u(&c) || show_u(&c) != show_u(&d) {
+                return Some("panic internal:scalar-forms-disagree".to_string());
+            }
+            // the BigInt i128 forms share the magnitude path
+            let bi = num_bigint::BigInt::from(a.clone()) * (sc as i128);
+            let _ = bi;
+            ok_u(&b)
+        }
         ("u.mul", [x, y]) => ok_u(&(&parse_u(x)? * &parse_u(y)?)),
         ("u.mul_assign", [x, y]) => {
             let mut v = parse_u(x)?;
